@@ -34,14 +34,30 @@ CHECKS = {
    text="all histories up to length 5 (thorough 6) over a 10-operation alphabet are enumerated and long random histories sampled against the real registry under the simulated clock, compared after every step with an expiry reference model",
    note="trusted: synctest fake clock; the reference model (30 lines) written from the property text; ages within 1 ms of a threshold are don't-cares",
    tech=TECH + " (simulated clock, history enumeration + seeded search, reference model)"),
+ "C14": dict(cat="exploration", ref="5 C14",
+   text="purity under schedules: 2-32 concurrent Select / SelectPhantom calls on one shared selector with every math/rand global call and lock as a scheduling point; each concurrent result must equal the same call executed alone before and after; all schedules of 2 tasks (bounded preemptions for 3-4 tasks) are enumerated for 12 small scenarios, larger ones sampled; containment (family, inside a configured subnet of the generation, port flag) is asserted on every result over generated configurations incl. /32, /128, leading-zero networks, overlaps, zero weights, and an offset sweep of small subnets",
+   note="containment is input sampling and labelled so; the draw inside mroth/weightedrand's Chooser.Pick is not a yield point (third-party module), so a wrong group pick under interleaving is under-approximated; IPv4-mapped IPv6 networks are never configured",
+   tech=TECH + " (lock-level / rand-level cooperative scheduler, schedule enumeration + seeded search, serial-result oracle)"),
  "C17": dict(cat="fault_enumeration", ref="5 C17",
    text="all single faults: outcome class (no registration, no transport, found via min/prefix/obfs4, transport error) x client family (IPv4, IPv6, v4-mapped) x 17 operation sites on the client connection, the dial and the covert connection x every error shape of that operation; pairs of faults and registration-path events sampled; everything the process writes to stdout/stderr/std logger is captured and searched for every textual form of the client address",
    note="trusted: simnet's error shapes mirror the net package's (OpError text with both endpoints); the capture redirects os.Stdout/os.Stderr before any logger is created; statistics printers are exercised under C19, not here",
    tech=TECH + " (fault enumeration over I/O call sites x error shapes with log capture)"),
+ "C18": dict(cat="exploration", ref="5 C18",
+   text="all 5-operation histories (thorough: 12) over {query x3 addresses, flip host, advance past either lifetime, ClearExpiredCache} for map and LRU x {both, live only, non-live only} x capacities 0..2 are enumerated and long random histories with independently generated Config fields sampled, under the simulated clock with a scripted probe; concurrent part: every schedule with <= 3 preemptions for 8 small scenarios at the package's lock operations and probes, plus random ones; oracle: measurement-history model (no stale / flipped / unmeasured cached answer), LRU recency model (evicted entries not served), capacity bound at every quiescent point, probe called once",
+   note="trusted: measurement-history and recency models; golang-lru is not instrumented (its eviction callback runs after the library releases its own lock at the pinned version - checked at start-up, with a suppress path otherwise); ages within 1 ms above a lifetime are don't-cares; cache hits are never demanded",
+   tech=TECH + " (simulated clock, history enumeration, lock-level scheduler with bounded-preemption enumeration, reference models)"),
+ "C19": dict(cat="exploration", ref="5 C19",
+   text="generated TOML configurations (every optional key set / unset / zero / malformed, list entries incl. malformed CIDRs and regular expressions, the shipped app_config.toml verbatim) and subnet files through the real ParseConfig / NewRegistrationManager / liveness New; for accepted ones: three epochs of every stats module's PrintAndReset with and without traffic, a sweep, and reload sequences of length <= 4 mixing valid, malformed and unreadable files; oracles: no panic, every list entry enforced (dropped entries detected by probing the intended range), reload differential against a fresh manager (failed part unchanged, successful part replaced); single reloads and one-key alternatives on the shipped config are enumerated",
+   note="the SIGHUP glue of cmd/application/main.go is re-implemented in 7 harness lines; connManager's stats module and GeoIP databases are not exercised; a panic or exit during the INITIAL load counts as a failed load",
+   tech=TECH + " (reload / file-fault sequences under the simulated clock, differential probes, panic monitor)"),
  "C20": dict(cat="fault_enumeration", ref="5 C20", engine="ptracefi",
    text="a real child process built from the current pkg/client/assets performs seeded store sequences under ptrace; for a fixed set of sequences every file-system syscall stop point is enumerated with kill-at-entry, kill-at-exit, torn write + kill, each errno and short write; the directory is then loaded by a fresh process and compared byte-for-byte with the old/new configuration, and the in-memory rollback is checked",
    note="trusted: the ptrace tracer's syscall classification (x86-64), determinism of the child's file-system syscall sequence (verified per sequence by three reference runs); power loss / page-cache durability is not modelled (the property speaks of process crash, kill or write failure)",
    tech=TECH + " (crash-point and syscall-error enumeration on a real process via ptrace)"),
+ "C12": dict(cat="exploration", ref="5 C12",
+   text="generated bidirectional requests (all transports / params / families / library versions, forged response and signature fields, overrides allowed or disabled) x registrar configurations (authenticated or not, parameter override sets, weighted subnet overrides, exclusions, percentages) x subnet files through the real RegProcessor; the forwarded bytes reach 1-2 real station parsers through a channel that duplicates, delays and reorders; three views (client, forwarded, station) must agree; a statistical sub-scenario checks that every non-zero-weight override subnet is used (miss probability < 1e-12)",
+   note="trusted: the ~40-line restatement of how the client library applies a RegistrationResponse around the real ClientTransports; the request/configuration space is sampled; the station never verifies the response signature itself (reported, not judged: no sentence of the property licenses an oracle for it)",
+   tech=TECH + " (three-party agreement registrar -> faulty channel -> stations, seeded search, statistical clause with stated miss probability)"),
  "C13": dict(cat="exploration", ref="5 C13",
    text="all schedules with at most 2 preemptions at lock operations for six small request/reload scenarios are enumerated, larger ones sampled, on the real RegProcessor with emulated RWMutex semantics (writer preference); deadlock is decided from the wait-for graph, old-or-new-in-full from the returned addresses",
    note="trusted: the lock emulation's fidelity to sync.RWMutex; code between two lock operations runs atomically (unlocked shared accesses are not interleaved)",
